@@ -293,7 +293,7 @@ def generate(tier, seed):
     cases = []
     quick = tier == 'quick'
     # (1) exhaustive menu programs of length 1 and 2 (+ touch between) on 3-record files
-    for fmt, eol in (('bed6', 'lf'), ('fastq', 'lf'), ('bam', 'lf')) + ((('fastq', 'crlf'), ('sam', 'lf'), ('vcf2', 'lf'), ('fasta', 'lf')) if not quick else ()):
+    for fmt, eol in (('bed6', 'lf'), ('fastq', 'lf'), ('bam', 'lf')) + ((('fastq', 'crlf'), ('sam', 'lf'), ('sam', 'crlf'), ('vcf2', 'lf'), ('fasta', 'lf')) if not quick else ()):
         f = _gen_file(fmt, rng, 3, eol, samples=2)
         for m1 in _menu_for(3):
             s1 = _resolve(m1, 3)
@@ -328,7 +328,7 @@ def generate(tier, seed):
     lazy = ['bed', 'bed6', 'np', 'vcf', 'vcf2', 'sam', 'fastq', 'fasta', 'bam']
     for fmt in lazy:
         for rep in range(1 if quick else 4):
-            for eol in (('lf',) if fmt == 'bam' else ('lf', 'crlf') if (rep == 0 and fmt in ('bed6', 'fastq', 'fasta')) else ('lf',)):
+            for eol in (('lf',) if fmt == 'bam' else ('lf', 'crlf') if (rep == 0 and fmt in ('bed6', 'sam', 'fastq', 'fasta')) else ('lf',)):
                 f = _gen_file_eq(fmt, rng, eol)
                 for sel in ([0, 2, 1, 3, 4], [0, 1, 1, 3, 4], [0, 3, 3, 3, 4], [0, 3, 2, 1, 4], [0, 2, 2, 1, 4]):
                     base = ['idx', ['list', sel], list(sel), ['src']]
@@ -344,7 +344,7 @@ def generate(tier, seed):
         for rep in range(3 if quick else 12):
             n = rng.choice([2, 3, 4])
             shape = {'samples': rng.choice([1, 2])} if fmt == 'vcf2' else {}
-            f = _gen_file(fmt, rng, n, 'lf', **shape)
+            f = _gen_file(fmt, rng, n, 'crlf' if (fmt in ('sam', 'bed6', 'vcf2', 'fastq') and rep % 3 == 2) else 'lf', **shape)
             cases.append(_gen_session(rng, fmt, f, n, rep))
     # (5) fields that were LOOKED AT before (parsed and cached on the table), then a selection, then another field
     #     assigned on the derived table (attribute assignment keeps the cache, bnp.replace drops it), then written
@@ -354,7 +354,7 @@ def generate(tier, seed):
         for rep in range(4 if quick else 16):
             n = rng.choice([2, 3, 4, 5])
             shape = {'samples': rng.choice([1, 2])} if fmt == 'vcf2' else {}
-            f = _gen_file(fmt, rng, n, 'lf', **shape)
+            f = _gen_file(fmt, rng, n, 'crlf' if (fmt in ('sam', 'bed6') and rep % 4 == 1) else 'lf', **shape)
             looked = rng.sample(INTF[fmt], min(len(INTF[fmt]), rng.choice([1, 2])))
             p = ['src']
             for nm in looked:
@@ -715,8 +715,6 @@ def _finding1(case, o):
     fmt = case['fmt']
     crlf = any(r['eol'] == 'crlf' for r in case['recs'])
     body = _body_of(case, o)
-    if fmt == 'sam' and crlf and o.get('error') == 'AttributeError':
-        return 'C04-sam-crlf-unreadable'
     if body is None:
         return None
     if fmt == 'gtf':
